@@ -45,7 +45,7 @@ class Cfg:
 
 class Harness:
     """a cache of one flavour in a symbolic Inv-state"""
-    def __init__(s, P, I, ctx, cfg, n, nmax=None, tolerant=False, name='c'):
+    def __init__(s, P, I, ctx, cfg, n, nmax=None, tolerant=False, name='c', hits_max=False):
         s.P = P; s.I = I; s.ctx = ctx; s.cfg = cfg; s.n = n; s.name = name
         fl = cfg.flavour
         s.SIZE = z3.Function('size', z3.IntSort(), z3.IntSort())
@@ -53,7 +53,7 @@ class Harness:
         ctx.real_time = cfg.real
         # ---- configuration terms
         if cfg.has_limit:
-            cfg.limit = z3.Int(name + '_limit'); ctx.add(z3.And(cfg.limit >= 1, cfg.limit <= (nmax if nmax is not None else max(n, 1)) , cfg.limit >= n))
+            cfg.limit = z3.Int(name + '_limit'); ctx.add(z3.And(cfg.limit >= 1, cfg.limit <= (nmax if nmax is not None else n + 2), cfg.limit >= n))      # full and non-full caches
         if cfg.has_ttl:
             cfg.ttl = RI(name + '_ttl'); ctx.add(z3.And(cfg.ttl >= 1, cfg.ttl <= 2 ** 32))
         if cfg.has_mem:
@@ -71,6 +71,7 @@ class Harness:
             birth = RI(f'{name}_birth{i}')
             ctx.add(z3.And(birth >= 0, birth <= s.now0))
             if cfg.policy in ('FIFO', 'LRU', 'Random'): ctx.add(hits == 0)
+            elif hits_max and i == 0: ctx.add(hits == 2 ** 64 - 1)          # saturation corner: the counter is already u64::MAX
             else: ctx.add(z3.And(hits >= 0, hits <= HITS_MAX))
             e = Entry(key, val, birth, hits)
             if fl == 'A':
@@ -92,7 +93,7 @@ class Harness:
         s.mapm = MapM([[Str(s.pre[i].key), mk_entry(s.pre[i])] for i in order], 'DashMap' if fl == 'A' else 'HashMap')
         s.dq = SeqM([Str(e.key) for e in s.pre], 'VecDeque')
         stats_fields = struct_fields(P, 'CacheStats')
-        s.h0 = z3.Int(name + '_hits0'); s.m0 = z3.Int(name + '_miss0'); ctx.add(z3.And(s.h0 >= 0, s.h0 <= 2 ** 40, s.m0 >= 0, s.m0 <= 2 ** 40))
+        s.h0 = z3.Int(name + '_stat_hits'); s.m0 = z3.Int(name + '_stat_misses'); ctx.add(z3.And(s.h0 >= 0, s.h0 <= 2 ** 40, s.m0 >= 0, s.m0 <= 2 ** 40))
         d = {'hits': Agg('Atomic', 0, [s.h0]), 'misses': Agg('Atomic', 0, [s.m0])}
         s.stats = Agg('CacheStats', 0, [d[f] for f in stats_fields]); s.stats_fields = stats_fields
         lim = some(cfg.limit) if cfg.has_limit else none()
